@@ -221,8 +221,11 @@ Print Assumptions C15_file_ops_regenerated.
    state and operation, the composition of the regenerated kernels -- a transaction (partitioning, dispatch, base manifests,
    delete rewrite, append manifest, create_snapshot with the expiry folded in, retention) and a snapshot deletion, each
    followed by MetadataManager.commit's stamp rule (Gen/GenCommit.v gen_new_lu) and metadata log.  create_snapshot (statement
-   shape checked one by one, metadata update emitted) included.  So `replay` IS the fold of regenerated code; what is left to
-   the correspondence is the file manager's contract and the I/O around these kernels. *)
+   shape checked one by one, metadata update emitted) included.  The GLUE between the kernels (StepGenProofs.gen_txn_meta: no commit
+   for an empty queue, the metadata-only branch, which kernel feeds which; gen_md_commit: which fields the stamp and the log
+   use) is HAND-WRITTEN there, despite the gen_ prefix, after the call structure that translator/gen_fileops.py pins: so `replay`
+   is the fold of regenerated kernels composed by hand-written glue; the glue, the file manager's contract and the I/O around
+   the kernels are what the `histories` correspondence compares with the code. *)
 Theorem C15_step_regenerated :
   (forall st ops id t tu f,
      step_full st (Txn ops id t tu f) =
